@@ -110,6 +110,10 @@ func typeName(t types.Type) string {
 	case *types.Map:
 		return "map[" + typeName(tt.Key()) + "]" + typeName(tt.Elem())
 	case *types.Basic:
+		// byte and rune are aliases: one memory class per underlying kind
+		if k := tt.Kind(); k > types.Invalid && k < types.UntypedBool && types.Typ[k] != nil {
+			return types.Typ[k].Name()
+		}
 		return tt.Name()
 	case *types.Interface:
 		if tt.Empty() {
@@ -367,7 +371,7 @@ func typeInv(t types.Type, v Value, frontier *Term) []*Term {
 	case *types.Slice:
 		s := v.(SliceV)
 		out = append(out, Le(Zero, s.Off), Le(Zero, s.Len), Le(s.Len, s.Cap), Le(Zero, s.Arr),
-			Le(s.Cap, BigLit(new(big.Int).Sub(pow2(62), big.NewInt(1)))), Le(s.Off, BigLit(pow2(62))))
+			Le(s.Cap, BigLit(pow2(48))), Le(s.Off, BigLit(pow2(48))))
 		if frontier != nil {
 			out = append(out, Le(s.Arr, frontier))
 		}
@@ -425,7 +429,7 @@ func strFacts(s *Term) []*Term {
 		return nil
 	}
 	l := SLen(s)
-	return []*Term{Le(Zero, l), Le(l, BigLit(pow2(62))), Eq(Eq(l, Zero), Eq(s, StrLit("")))}
+	return []*Term{Le(Zero, l), Le(l, BigLit(pow2(48))), Eq(Eq(l, Zero), Eq(s, StrLit("")))}
 }
 
 // litFacts axiomatises a literal: its characters (length is folded by SLen).
